@@ -59,8 +59,10 @@ func reverseStack(s tlb.VmStack) tlb.VmStack {
 	return out
 }
 
-// roundTrip is the oracle for one value of one type.
-func roundTrip(c *core.Ctx, t reflect.Type, v reflect.Value) error {
+// roundTripDecoders is the oracle for one value of one type: tlb.Unmarshal first (a decoder the library
+// declares not implemented ends the case), then every decoder configuration of extra (decoders_test.go) on a
+// fresh encoding of the same value.
+func roundTripDecoders(c *core.Ctx, t reflect.Type, v reflect.Value, extra []int) error {
 	name := typeName(t)
 	cell := boc.NewCell()
 	var encErr error
@@ -76,26 +78,67 @@ func roundTrip(c *core.Ctx, t reflect.Type, v reflect.Value) error {
 	}
 	c.Class("encoded")
 	key1 := tlbgen.CellKey(cell)
-	out := reflect.New(t)
 	cell.ResetCounters()
+	missing, err := decodeBack(t, v, cell, key1, decPlain)
+	if err != nil {
+		return err
+	}
+	if missing {
+		c.Class("decoder not implemented")
+		decoderMissing(name)
+		return nil
+	}
+	for _, d := range extra {
+		// a fresh encoding for every decoder: decoding moves the read cursors of the cells it walks
+		again := boc.NewCell()
+		var enc error
+		if perr := core.Protect(func() error { enc = tlb.Marshal(again, v.Interface()); return nil }); perr != nil {
+			return fmt.Errorf("%s: tlb.Marshal panicked when the same value was encoded once more: %v", name, perr)
+		}
+		if enc != nil {
+			return fmt.Errorf("%s: tlb.Marshal fails (%v) when the same value is encoded once more\nvalue: %s", name, enc, render(v))
+		}
+		if k := tlbgen.CellKey(again); k != key1 {
+			return fmt.Errorf("%s: encoding the same value once more gives cell %s, the first time %s\nvalue: %s", name, k, key1, render(v))
+		}
+		c.Class("decoded also by " + decoderNames[d])
+		missing, err := decodeBack(t, v, again, key1, d)
+		if err != nil {
+			return err
+		}
+		if missing {
+			return fmt.Errorf("%s: tlb.Unmarshal decodes the cell %s, %s says it is not implemented\nvalue: %s", name, key1, decoderNames[d], render(v))
+		}
+	}
+	if !tlbgen.IsZero(v) && cell.BitSize()+cell.RefsSize() > 0 {
+		c.NonTrivial(name, key1)
+	}
+	return nil
+}
+
+// decodeBack decodes cell (the encoding of v, hash key1) with decoder configuration d, compares the result
+// with v and encodes it again. missing: the library says that the decoder is not implemented.
+func decodeBack(t reflect.Type, v reflect.Value, cell *boc.Cell, key1 string, d int) (missing bool, err error) {
+	name := typeName(t)
+	how := decoderNames[d]
+	out := reflect.New(t)
+	dec := newDecoder(d)
 	var decErr error
-	if perr := core.Protect(func() error { decErr = tlb.Unmarshal(cell, out.Interface()); return nil }); perr != nil {
-		return fmt.Errorf("%s: tlb.Unmarshal panicked on the encoding of a value (cell %s): %v", name, key1, perr)
+	if perr := core.Protect(func() error { decErr = runDecoder(dec, cell, out.Interface()); return nil }); perr != nil {
+		return false, fmt.Errorf("%s: %s panicked on the encoding of a value (cell %s): %v", name, how, key1, perr)
 	}
 	if decErr != nil {
 		if notImplemented(decErr) {
-			c.Class("decoder not implemented")
-			decoderMissing(name)
-			return nil
+			return true, nil
 		}
-		return fmt.Errorf("%s: the cell produced by Marshal does not decode: %v\nvalue: %s", name, decErr, render(v))
+		return false, fmt.Errorf("%s: the cell produced by Marshal does not decode with %s: %v\nvalue: %s", name, how, decErr, render(v))
 	}
 	want := v
 	if t == vmStackT {
 		want = reflect.ValueOf(reverseStack(v.Interface().(tlb.VmStack)))
 	}
 	if err := tlbgen.Equal(want, out.Elem()); err != nil {
-		return fmt.Errorf("%s: decode(encode(v)) != v: %v\nvalue: %s", name, err, render(v))
+		return false, fmt.Errorf("%s: decode(encode(v)) != v with %s: %v\nvalue: %s", name, how, err, render(v))
 	}
 	// encode the decoded value again: same cell. A caller may have read from the bit strings and cells the
 	// value holds in the meantime (read cursors are not part of the value), so they are moved first.
@@ -107,18 +150,15 @@ func roundTrip(c *core.Ctx, t reflect.Type, v reflect.Value) error {
 	cell2 := boc.NewCell()
 	var enc2 error
 	if perr := core.Protect(func() error { enc2 = tlb.Marshal(cell2, again.Interface()); return nil }); perr != nil {
-		return fmt.Errorf("%s: tlb.Marshal panicked on a decoded value: %v", name, perr)
+		return false, fmt.Errorf("%s: tlb.Marshal panicked on a value decoded with %s: %v", name, how, perr)
 	}
 	if enc2 != nil {
-		return fmt.Errorf("%s: decoded value does not encode again: %v", name, enc2)
+		return false, fmt.Errorf("%s: the value decoded with %s does not encode again: %v", name, how, enc2)
 	}
 	if key2 := tlbgen.CellKey(cell2); key2 != key1 {
-		return fmt.Errorf("%s: re-encoding the decoded value gives hash %s, first encoding %s\nvalue: %s", name, key2, key1, render(v))
+		return false, fmt.Errorf("%s: re-encoding the value decoded with %s gives hash %s, first encoding %s\nvalue: %s", name, how, key2, key1, render(v))
 	}
-	if !tlbgen.IsZero(v) && cell.BitSize()+cell.RefsSize() > 0 {
-		c.NonTrivial(name, key1)
-	}
-	return nil
+	return false, nil
 }
 
 var (
@@ -225,7 +265,7 @@ var valueCheck = &core.Check{Name: "c03/roundtrip", Quick: 25000, Thorough: 1500
 		}
 	}
 	perType[name]++
-	err := roundTrip(c, t, v)
+	err := roundTripDecoders(c, t, v, drawDecoders(c, g.Events))
 	if err != nil && os.Getenv("VERIF_SURVEY") != "" {
 		m := err.Error()
 		if i := strings.Index(m, "\nvalue:"); i > 0 {
@@ -312,7 +352,7 @@ var focusCheck = &core.Check{Name: "c03/handwritten", Quick: 12000, Thorough: 80
 			c.Class(e)
 		}
 	}
-	return roundTrip(c, t, v)
+	return roundTripDecoders(c, t, v, drawDecoders(c, g.Events))
 }}
 
 func TestProp(t *testing.T) {
@@ -370,5 +410,5 @@ func report() {
 }
 
 func TestReplay(t *testing.T) {
-	core.Replay(t, valueCheck, focusCheck, abiCheck, dnsCheck, concurrentCheck)
+	core.Replay(t, valueCheck, focusCheck, abiCheck, dnsCheck, concurrentCheck, rawCellCheck)
 }
